@@ -5,8 +5,9 @@ from ..sched import draw_common, Scheduler, DEFAULT_SCHED, apply_churn, apply_gu
 REAL_CLUSTER = ['pysyncobj.syncobj.SyncObj (Raft core, apply loop, compaction)', 'pysyncobj.transport.TCPTransport',
                 'pysyncobj.tcp_connection.TcpConnection (framing, buffers, timeouts)', 'pysyncobj.tcp_server.TcpServer',
                 'pysyncobj.journal (MemoryJournal/FileJournal/ResizableFile/MetaStorer)', 'pysyncobj.serializer.Serializer',
-                'pysyncobj.fast_queue', 'pysyncobj.pickle', 'pysyncobj.node', 'pysyncobj.config']
-STUB_CLUSTER = ['socket module (SimNet byte pipes)', 'poller (SimPoller over SimNet readiness)', 'monotonic/time (virtual clock)',
+                'pysyncobj.fast_queue', 'pysyncobj.pickle', 'pysyncobj.node', 'pysyncobj.config',
+                'pysyncobj.poller.PollPoller / SelectPoller (3 of 4 runs, over a simulated select module)']
+STUB_CLUSTER = ['socket module (SimNet byte pipes)', 'select module (simulated select()/poll() over SimNet readiness, descriptor numbers re-used like a kernel in half of the runs); 1 run in 4 uses the stand-in SimPoller instead of the repository\'s pollers', 'monotonic/time (virtual clock)',
                 'random (seeded per node incarnation)', 'DNS resolver (identity)', 'open/os/mmap/shutil/gzip-mtime (SimFS)',
                 'os.fork/waitpid/_exit (two-pass fork emulation)', 'PipeNotifier disabled (supported no-fcntl path)',
                 'threading: none, nodes are ticked by the scheduler (autoTick=False)']
